@@ -1,6 +1,1228 @@
-//! Monitor for C21 (see /verif/DESIGN.md §5 C21).
-use vcommon::Args;
+//! C21 — uncommitted market operations never leak into stored state.
+//!
+//! Direct monitor on the real `RevertibleMarket` / `RevertibleLiquidityMarket` (hooks `verif_*`,
+//! `--cfg gmsol_verif`) over real `Market` accounts created by the real `initialize_market`.
+//!
+//! How the real buffer code is reached: `RevertibleBuffer::commit_to_storage` emits its event through
+//! a self-CPI and *panics* if that fails, and the clock methods need `Clock::get()`. Both only work
+//! inside a transaction. So the monitor registers a tiny dispatcher under the store program id in
+//! hostsvm: instruction data starting with `TAG` runs a scripted sequence of revertible operations on
+//! the passed (real, store-owned, writable) market account; every other instruction (including the
+//! event self-CPI issued by `commit`) is forwarded to the real `gmsol_store::entry`. Token mint/burn at
+//! `RevertibleLiquidityMarket::commit` goes through the real SPL token processor with the store PDA
+//! as signer. Nothing of the repo is re-implemented; the script only *calls* the public / hooked API.
+//!
+//! Oracle: an independent overlay model `{storage, overlay}` (copy on begin, replace on commit,
+//! discard on drop) with plain checked integer arithmetic, compared after every step with everything
+//! readable through the revertible view; byte comparisons of the account for "storage unchanged".
+use crate::world::{exchange::load, pda, MarketInfo, World, STORE_PID};
+use anchor_lang::prelude::*;
+use anchor_lang::solana_program::{
+    entrypoint::ProgramResult,
+    instruction::{AccountMeta, Instruction},
+    program_error::ProgramError,
+};
+use anchor_spl::token::{spl_token, Mint};
+use gmsol_model::{
+    price::{Price, Prices},
+    Bank, BaseMarket, BaseMarketMut, BorrowingFeeMarket, BorrowingFeeMarketMut, ClockKind, LiquidityMarket,
+    LiquidityMarketMut, PerpMarket, PerpMarketMut, Pool as _, PoolKind, PositionImpactMarket, PositionImpactMarketMut,
+    SwapMarketMut,
+};
+use gmsol_store::states::{
+    market::{
+        pool::Pool,
+        revertible::{Revertible, RevertibleLiquidityMarket, RevertibleMarket, Revision},
+    },
+    HasMarketMeta, Market, Store,
+};
+use hostsvm::token;
+use std::cell::RefCell;
+use vcommon::{json, monitor::run_shards, Args, Monitor, Rng};
 
-pub fn run(_args: &Args) -> Option<i32> {
-    None
+const TAG: [u8; 8] = *b"\xffVRF-C21";
+
+/// The 16 pool kinds in the order of the `Pools` struct (checked against the accessors at run time).
+const KINDS: [PoolKind; 16] = [
+    PoolKind::Primary,
+    PoolKind::SwapImpact,
+    PoolKind::ClaimableFee,
+    PoolKind::OpenInterestForLong,
+    PoolKind::OpenInterestForShort,
+    PoolKind::OpenInterestInTokensForLong,
+    PoolKind::OpenInterestInTokensForShort,
+    PoolKind::PositionImpact,
+    PoolKind::BorrowingFactor,
+    PoolKind::FundingAmountPerSizeForLong,
+    PoolKind::FundingAmountPerSizeForShort,
+    PoolKind::ClaimableFundingAmountPerSizeForLong,
+    PoolKind::ClaimableFundingAmountPerSizeForShort,
+    PoolKind::CollateralSumForLong,
+    PoolKind::CollateralSumForShort,
+    PoolKind::TotalBorrowing,
+];
+const CLOCKS: [ClockKind; 5] = [
+    ClockKind::PriceImpactDistribution,
+    ClockKind::Borrowing,
+    ClockKind::Funding,
+    ClockKind::AdlForLong,
+    ClockKind::AdlForShort,
+];
+
+// Account layout (derived from the struct definitions; verified against the accessors at run time):
+// .. | state: State | buffer: { rev u64, pad 8, state: State } | vi swaps 32 | vi positions 32 | reserved 192
+const POOL_SLOT: usize = 64; // rev 8 + pad 8 + Pool 48
+const POOLS_SZ: usize = 32 * POOL_SLOT;
+const CLOCKS_SZ: usize = 80;
+const OTHER_SZ: usize = 320;
+const STATE_SZ: usize = POOLS_SZ + CLOCKS_SZ + OTHER_SZ + 1024;
+const TAIL_SZ: usize = 32 + 32 + 192;
+const MSZ: usize = std::mem::size_of::<Market>();
+const BUF_OFF: usize = MSZ - TAIL_SZ - 16 - STATE_SZ;
+const STATE_OFF: usize = BUF_OFF - STATE_SZ;
+
+#[derive(Clone, Debug)]
+enum Step {
+    Begin { liq: bool, mint_on: bool, burn_on: bool },
+    PoolDelta { kind: u8, long_side: bool, delta: i128, via_trait: bool },
+    ClockPass { which: u8 },
+    ClockPeek { which: u8 },
+    Transfer { inn: bool, long_token: bool, amount: u64 },
+    Balance { long_token: bool },
+    NextTradeId,
+    SetFunding { value: i128 },
+    FeesState,
+    Mint { amount: u128 },
+    Burn { amount: u128 },
+    Commit,
+    Drop,
+    Fail,
+}
+
+impl Step {
+    fn name(&self) -> &'static str {
+        match self {
+            Step::Begin { liq: false, .. } => "begin",
+            Step::Begin { liq: true, .. } => "begin_liquidity",
+            Step::PoolDelta { via_trait: false, .. } => "pool_write",
+            Step::PoolDelta { via_trait: true, .. } => "pool_write_via_trait",
+            Step::ClockPass { .. } => "clock_just_passed",
+            Step::ClockPeek { .. } => "clock_passed_read",
+            Step::Transfer { inn: true, .. } => "transferred_in",
+            Step::Transfer { inn: false, .. } => "transferred_out",
+            Step::Balance { .. } => "balance_read",
+            Step::NextTradeId => "next_trade_id",
+            Step::SetFunding { .. } => "set_funding_factor",
+            Step::FeesState => "update_fees_state",
+            Step::Mint { .. } => "mint",
+            Step::Burn { .. } => "burn",
+            Step::Commit => "commit",
+            Step::Drop => "drop",
+            Step::Fail => "fail_tx",
+        }
+    }
+}
+
+#[derive(Clone)]
+struct View {
+    pools: [[u8; 48]; 16],
+    clocks: [u8; CLOCKS_SZ],
+    other: [u8; OTHER_SZ],
+}
+
+/// What the script observed at one step.
+#[derive(Clone)]
+struct Obs {
+    /// `Some(Ok(v))` / `Some(Err)` for steps with a result.
+    ret: Option<std::result::Result<u128, String>>,
+    view: Option<View>,
+    /// Account bytes outside the buffer region equal the bytes before `begin`.
+    storage_same: bool,
+    /// The model-trait pool accessors return the same pools as `verif_pool(kind)`.
+    trait_ok: bool,
+    rev: u64,
+    rev_at_off: u64,
+    deferred: Option<(u64, u64)>,
+    supply: Option<u128>,
+    pre: Option<Vec<u8>>,
+    post: Option<Vec<u8>>,
+}
+
+thread_local! {
+    static SCRIPT: RefCell<Vec<Step>> = const { RefCell::new(Vec::new()) };
+    static OBS: RefCell<Vec<Obs>> = const { RefCell::new(Vec::new()) };
+    static EVENT_BUMP: std::cell::Cell<u8> = const { std::cell::Cell::new(0) };
+}
+
+fn entry<'a>(program_id: &Pubkey, accounts: &'a [AccountInfo<'a>], data: &[u8]) -> ProgramResult {
+    if data.len() >= 8 && data[..8] == TAG {
+        handler(accounts)
+    } else {
+        gmsol_store::entry(program_id, accounts, data)
+    }
+}
+
+fn market_bytes(info: &AccountInfo) -> Vec<u8> {
+    let d = info.try_borrow_data().expect("market data borrowed");
+    d[8..8 + MSZ].to_vec()
+}
+
+fn outside_buffer_eq(a: &[u8], b: &[u8]) -> bool {
+    a[..BUF_OFF] == b[..BUF_OFF] && a[BUF_OFF + 16 + STATE_SZ..] == b[BUF_OFF + 16 + STATE_SZ..]
+}
+
+enum Op<'a, 'info> {
+    M(RevertibleMarket<'a, 'info>),
+    L(RevertibleLiquidityMarket<'a, 'info>),
+}
+
+impl<'a, 'info> Op<'a, 'info> {
+    fn base(&self) -> &RevertibleMarket<'a, 'info> {
+        match self {
+            Op::M(m) => m,
+            Op::L(l) => l.verif_base(),
+        }
+    }
+    fn base_mut(&mut self) -> &mut RevertibleMarket<'a, 'info> {
+        match self {
+            Op::M(m) => m,
+            Op::L(l) => l.verif_base_mut(),
+        }
+    }
+    fn commit(self) {
+        match self {
+            Op::M(m) => m.commit(),
+            Op::L(l) => l.commit(),
+        }
+    }
+}
+
+fn pool_ref<'x>(rm: &'x RevertibleMarket<'_, '_>, k: PoolKind) -> gmsol_model::Result<&'x Pool> {
+    match k {
+        PoolKind::Primary => rm.liquidity_pool(),
+        PoolKind::SwapImpact => rm.swap_impact_pool(),
+        PoolKind::ClaimableFee => rm.claimable_fee_pool(),
+        PoolKind::OpenInterestForLong => rm.open_interest_pool(true),
+        PoolKind::OpenInterestForShort => rm.open_interest_pool(false),
+        PoolKind::OpenInterestInTokensForLong => rm.open_interest_in_tokens_pool(true),
+        PoolKind::OpenInterestInTokensForShort => rm.open_interest_in_tokens_pool(false),
+        PoolKind::PositionImpact => rm.position_impact_pool(),
+        PoolKind::BorrowingFactor => rm.borrowing_factor_pool(),
+        PoolKind::FundingAmountPerSizeForLong => rm.funding_amount_per_size_pool(true),
+        PoolKind::FundingAmountPerSizeForShort => rm.funding_amount_per_size_pool(false),
+        PoolKind::ClaimableFundingAmountPerSizeForLong => rm.claimable_funding_amount_per_size_pool(true),
+        PoolKind::ClaimableFundingAmountPerSizeForShort => rm.claimable_funding_amount_per_size_pool(false),
+        PoolKind::CollateralSumForLong => rm.collateral_sum_pool(true),
+        PoolKind::CollateralSumForShort => rm.collateral_sum_pool(false),
+        PoolKind::TotalBorrowing => rm.total_borrowing_pool(),
+        _ => Err(gmsol_model::Error::MissingPoolKind(k)),
+    }
+}
+
+fn pool_mut_via_trait<'x>(rm: &'x mut RevertibleMarket<'_, '_>, k: PoolKind) -> gmsol_model::Result<&'x mut Pool> {
+    match k {
+        PoolKind::Primary => rm.liquidity_pool_mut(),
+        PoolKind::SwapImpact => rm.swap_impact_pool_mut(),
+        PoolKind::ClaimableFee => rm.claimable_fee_pool_mut(),
+        PoolKind::OpenInterestForLong => rm.open_interest_pool_mut(true),
+        PoolKind::OpenInterestForShort => rm.open_interest_pool_mut(false),
+        PoolKind::OpenInterestInTokensForLong => rm.open_interest_in_tokens_pool_mut(true),
+        PoolKind::OpenInterestInTokensForShort => rm.open_interest_in_tokens_pool_mut(false),
+        PoolKind::PositionImpact => rm.position_impact_pool_mut(),
+        PoolKind::BorrowingFactor => rm.borrowing_factor_pool_mut(),
+        PoolKind::FundingAmountPerSizeForLong => rm.funding_amount_per_size_pool_mut(true),
+        PoolKind::FundingAmountPerSizeForShort => rm.funding_amount_per_size_pool_mut(false),
+        PoolKind::ClaimableFundingAmountPerSizeForLong => rm.claimable_funding_amount_per_size_pool_mut(true),
+        PoolKind::ClaimableFundingAmountPerSizeForShort => rm.claimable_funding_amount_per_size_pool_mut(false),
+        PoolKind::CollateralSumForLong => rm.collateral_sum_pool_mut(true),
+        PoolKind::CollateralSumForShort => rm.collateral_sum_pool_mut(false),
+        PoolKind::TotalBorrowing => rm.total_borrowing_pool_mut(),
+        _ => Err(gmsol_model::Error::MissingPoolKind(k)),
+    }
+}
+
+fn capture(op: &Op<'_, '_>, pre: &[u8]) -> (View, bool, bool, u64, u64) {
+    let rm = op.base();
+    let mut v = View { pools: [[0; 48]; 16], clocks: [0; CLOCKS_SZ], other: [0; OTHER_SZ] };
+    let mut trait_ok = true;
+    for (i, k) in KINDS.iter().enumerate() {
+        let p = rm.verif_pool(*k).expect("pool kind exists");
+        v.pools[i].copy_from_slice(bytemuck::bytes_of(&p));
+        match pool_ref(rm, *k) {
+            Ok(q) => trait_ok &= *q == p,
+            Err(_) => trait_ok = false,
+        }
+    }
+    v.clocks.copy_from_slice(bytemuck::bytes_of(rm.verif_clocks()));
+    v.other.copy_from_slice(bytemuck::bytes_of(rm.verif_other()));
+    let market: &Market = rm.as_ref();
+    let bytes = bytemuck::bytes_of(market);
+    let same = outside_buffer_eq(bytes, pre);
+    let rev_at_off = u64::from_le_bytes(bytes[BUF_OFF..BUF_OFF + 8].try_into().unwrap());
+    (v, same, trait_ok, rm.rev(), rev_at_off)
+}
+
+fn push(o: Obs) {
+    OBS.with(|x| x.borrow_mut().push(o));
+}
+
+fn handler<'a>(accounts: &'a [AccountInfo<'a>]) -> ProgramResult {
+    let script = SCRIPT.with(|s| s.borrow().clone());
+    let mut i = 0usize;
+    while i < script.len() {
+        match &script[i] {
+            Step::Begin { .. } => i = run_op(accounts, &script, i)?,
+            Step::Fail => {
+                push(Obs {
+                    ret: None,
+                    view: None,
+                    storage_same: true,
+                    trait_ok: true,
+                    rev: 0,
+                    rev_at_off: 0,
+                    deferred: None,
+                    supply: None,
+                    pre: None,
+                    post: None,
+                });
+                return Err(ProgramError::Custom(0xC21));
+            }
+            _ => i += 1,
+        }
+    }
+    Ok(())
+}
+
+fn run_op<'a>(accounts: &'a [AccountInfo<'a>], script: &[Step], start: usize) -> std::result::Result<usize, ProgramError> {
+    let Step::Begin { liq, mint_on, burn_on } = script[start] else {
+        return Err(ProgramError::InvalidArgument);
+    };
+    let pre = market_bytes(&accounts[0]);
+    let loader = AccountLoader::<Market>::try_from(&accounts[0])?;
+    let bump = EVENT_BUMP.with(|b| b.get());
+    let rm = RevertibleMarket::verif_new(&loader, &accounts[1], bump)?;
+    if liq {
+        let mint = Account::<Mint>::try_from(&accounts[4])?;
+        let store = AccountLoader::<Store>::try_from(&accounts[3])?;
+        let lm = RevertibleLiquidityMarket::verif_new(
+            rm,
+            &mint,
+            &accounts[5],
+            &store,
+            mint_on.then_some(&accounts[6]),
+            burn_on.then_some(&accounts[7]),
+        )?;
+        drive(Op::L(lm), accounts, script, start, pre)
+    } else {
+        drive(Op::M(rm), accounts, script, start, pre)
+    }
+}
+
+fn ret_of<T, E: std::fmt::Display>(r: std::result::Result<T, E>, f: impl FnOnce(T) -> u128) -> Option<std::result::Result<u128, String>> {
+    Some(match r {
+        Ok(v) => Ok(f(v)),
+        Err(e) => Err(e.to_string()),
+    })
+}
+
+fn drive<'a, 'info>(
+    mut op: Op<'a, 'info>,
+    accounts: &[AccountInfo],
+    script: &[Step],
+    start: usize,
+    pre: Vec<u8>,
+) -> std::result::Result<usize, ProgramError> {
+    let (long_mint, short_mint) = {
+        let meta = op.base().market_meta();
+        (meta.long_token_mint, meta.short_token_mint)
+    };
+    let record = |op: &Op<'a, 'info>, ret, with_pre: Option<Vec<u8>>| {
+        let (view, same, trait_ok, rev, rev_at_off) = capture(op, &pre);
+        let (deferred, supply) = match op {
+            Op::L(l) => (Some(l.verif_deferred()), Some(l.total_supply())),
+            Op::M(_) => (None, None),
+        };
+        push(Obs { ret, view: Some(view), storage_same: same, trait_ok, rev, rev_at_off, deferred, supply, pre: with_pre, post: None });
+    };
+    record(&op, None, Some(pre.clone()));
+    let mut i = start + 1;
+    loop {
+        let step = script.get(i).cloned().unwrap_or(Step::Drop);
+        i += 1;
+        let ret = match step {
+            Step::PoolDelta { kind, long_side, delta, via_trait } => {
+                let k = KINDS[kind as usize];
+                let rm = op.base_mut();
+                let r = if via_trait { pool_mut_via_trait(rm, k) } else { rm.verif_pool_mut(k) }.and_then(|p| {
+                    if long_side {
+                        p.apply_delta_to_long_amount(&delta)
+                    } else {
+                        p.apply_delta_to_short_amount(&delta)
+                    }
+                });
+                ret_of(r, |_| 0)
+            }
+            Step::ClockPass { which } => {
+                let rm = op.base_mut();
+                let r = match which {
+                    0 => rm.just_passed_in_seconds_for_position_impact_distribution(),
+                    1 => rm.just_passed_in_seconds_for_borrowing(),
+                    _ => rm.just_passed_in_seconds_for_funding(),
+                };
+                ret_of(r, |d| d as u128)
+            }
+            Step::ClockPeek { which } => {
+                let rm = op.base();
+                let r = match which {
+                    0 => rm.passed_in_seconds_for_position_impact_distribution(),
+                    _ => rm.passed_in_seconds_for_borrowing(),
+                };
+                ret_of(r, |d| d as u128)
+            }
+            Step::Transfer { inn, long_token, amount } => {
+                let token = if long_token { long_mint } else { short_mint };
+                // Through the liquidity market's forwarding impl when one is open.
+                let r = match (&mut op, inn) {
+                    (Op::L(l), true) => l.record_transferred_in_by_token(&token, &amount),
+                    (Op::L(l), false) => l.record_transferred_out_by_token(&token, &amount),
+                    (Op::M(m), true) => m.record_transferred_in_by_token(&token, &amount),
+                    (Op::M(m), false) => m.record_transferred_out_by_token(&token, &amount),
+                };
+                ret_of(r, |_| 0)
+            }
+            Step::Balance { long_token } => {
+                let token = if long_token { long_mint } else { short_mint };
+                ret_of(op.base().balance(&token), |b| b as u128)
+            }
+            Step::NextTradeId => ret_of(op.base_mut().verif_next_trade_id(), |v| v as u128),
+            Step::SetFunding { value } => {
+                *op.base_mut().funding_factor_per_second_mut() = value;
+                let back = *op.base().funding_factor_per_second();
+                Some(if back == value { Ok(0) } else { Err("funding factor read back differs".into()) })
+            }
+            Step::FeesState => {
+                let prices = Prices {
+                    index_token_price: Price { min: 59_990 * 10u128.pow(12), max: 60_010 * 10u128.pow(12) },
+                    long_token_price: Price { min: 149 * 10u128.pow(11), max: 151 * 10u128.pow(11) },
+                    short_token_price: Price { min: 10u128.pow(14), max: 10u128.pow(14) },
+                };
+                ret_of(op.base_mut().verif_update_fees_state(&prices), |_| 0)
+            }
+            Step::Mint { amount } => match &mut op {
+                Op::L(l) => ret_of(l.mint(&amount), |_| 0),
+                Op::M(_) => None,
+            },
+            Step::Burn { amount } => match &mut op {
+                Op::L(l) => ret_of(l.burn(&amount), |_| 0),
+                Op::M(_) => None,
+            },
+            Step::Commit | Step::Drop | Step::Begin { .. } | Step::Fail => {
+                let commit = matches!(step, Step::Commit);
+                if commit {
+                    op.commit();
+                } else {
+                    drop(op);
+                }
+                let post = market_bytes(&accounts[0]);
+                let rev_at_off = u64::from_le_bytes(post[BUF_OFF..BUF_OFF + 8].try_into().unwrap());
+                push(Obs {
+                    ret: None,
+                    view: None,
+                    storage_same: outside_buffer_eq(&post, &pre),
+                    trait_ok: true,
+                    rev: 0,
+                    rev_at_off,
+                    deferred: None,
+                    supply: None,
+                    pre: None,
+                    post: Some(post),
+                });
+                // A `Begin`/`Fail` inside an operation is never generated; treat as drop and re-run it.
+                return Ok(if matches!(step, Step::Commit | Step::Drop) { i } else { i - 1 });
+            }
+        };
+        record(&op, ret, None);
+    }
+}
+
+// ------------------------------------------------------------------------------------------------
+// Reference model
+
+#[derive(Clone, Debug, PartialEq, Eq)]
+struct MPool {
+    pure: u8,
+    long: u128,
+    short: u128,
+}
+
+#[derive(Clone, Debug, PartialEq, Eq)]
+struct MState {
+    pools: Vec<MPool>,
+    clocks: [i64; 5],
+    trade_count: u64,
+    long_bal: u64,
+    short_bal: u64,
+    funding: i128,
+}
+
+fn parse_pool(b: &[u8]) -> MPool {
+    MPool {
+        pure: b[0],
+        long: u128::from_le_bytes(b[16..32].try_into().unwrap()),
+        short: u128::from_le_bytes(b[32..48].try_into().unwrap()),
+    }
+}
+
+fn parse_clocks(b: &[u8]) -> [i64; 5] {
+    let mut c = [0i64; 5];
+    for (i, x) in c.iter_mut().enumerate() {
+        *x = i64::from_le_bytes(b[16 + 8 * i..24 + 8 * i].try_into().unwrap());
+    }
+    c
+}
+
+fn parse_view(v: &View) -> MState {
+    MState {
+        pools: v.pools.iter().map(|p| parse_pool(p)).collect(),
+        clocks: parse_clocks(&v.clocks),
+        trade_count: u64::from_le_bytes(v.other[24..32].try_into().unwrap()),
+        long_bal: u64::from_le_bytes(v.other[32..40].try_into().unwrap()),
+        short_bal: u64::from_le_bytes(v.other[40..48].try_into().unwrap()),
+        funding: i128::from_le_bytes(v.other[48..64].try_into().unwrap()),
+    }
+}
+
+/// The stored state as parsed from raw account bytes with the derived layout.
+fn parse_storage(bytes: &[u8]) -> MState {
+    let s = &bytes[STATE_OFF..STATE_OFF + STATE_SZ];
+    let o = &s[POOLS_SZ + CLOCKS_SZ..POOLS_SZ + CLOCKS_SZ + OTHER_SZ];
+    MState {
+        pools: (0..16).map(|i| parse_pool(&s[i * POOL_SLOT + 16..(i + 1) * POOL_SLOT])).collect(),
+        clocks: parse_clocks(&s[POOLS_SZ..POOLS_SZ + CLOCKS_SZ]),
+        trade_count: u64::from_le_bytes(o[24..32].try_into().unwrap()),
+        long_bal: u64::from_le_bytes(o[32..40].try_into().unwrap()),
+        short_bal: u64::from_le_bytes(o[40..48].try_into().unwrap()),
+        funding: i128::from_le_bytes(o[48..64].try_into().unwrap()),
+    }
+}
+
+/// The stored state as read through the repository's own public accessors.
+fn storage_via_accessors(m: &Market) -> MState {
+    let st = m.state();
+    let mut clocks = [0i64; 5];
+    for (i, k) in CLOCKS.iter().enumerate() {
+        clocks[i] = m.clock(*k).unwrap_or(i64::MIN);
+    }
+    MState {
+        pools: KINDS.iter().map(|k| parse_pool(bytemuck::bytes_of(&m.pool(*k).expect("kind")))).collect(),
+        clocks,
+        trade_count: st.trade_count(),
+        long_bal: st.long_token_balance_raw(),
+        short_bal: st.short_token_balance_raw(),
+        funding: st.funding_factor_per_second(),
+    }
+}
+
+#[derive(Clone)]
+struct Model {
+    storage: MState,
+    rev: u64,
+    pure_market: bool,
+    supply: u64,
+    receiver: u64,
+    vault: u64,
+    /// Number of operations abandoned with successful writes since the last commit.
+    dirty_drops_since_commit: u64,
+    consecutive_drops: u64,
+}
+
+struct OpenModel {
+    overlay: MState,
+    touched_pools: [bool; 16],
+    touched_clocks: bool,
+    touched_other: bool,
+    wrote: u64,
+    liq: bool,
+    to_mint: u64,
+    to_burn: u64,
+    supply_at_begin: u64,
+    pre: Vec<u8>,
+}
+
+struct Ctx<'a> {
+    shard: u64,
+    market: usize,
+    tx: u64,
+    now: i64,
+    script: &'a [Step],
+}
+
+fn witness(cx: &Ctx, step: usize, detail: vcommon::serde_json::Value) -> vcommon::serde_json::Value {
+    json!({
+        "shard": cx.shard, "market": cx.market, "tx": cx.tx, "clock_unix_timestamp": cx.now, "step": step,
+        "script": cx.script.iter().map(|s| format!("{s:?}")).collect::<Vec<_>>(),
+        "detail": detail,
+    })
+}
+
+fn diff_state(a: &MState, b: &MState) -> String {
+    let mut out = vec![];
+    for i in 0..16 {
+        if a.pools[i] != b.pools[i] {
+            out.push(format!("pool {:?}: observed {:?} model {:?}", KINDS[i], a.pools[i], b.pools[i]));
+        }
+    }
+    if a.clocks != b.clocks {
+        out.push(format!("clocks: observed {:?} model {:?}", a.clocks, b.clocks));
+    }
+    if (a.trade_count, a.long_bal, a.short_bal, a.funding) != (b.trade_count, b.long_bal, b.short_bal, b.funding) {
+        out.push(format!(
+            "other: observed {:?} model {:?}",
+            (a.trade_count, a.long_bal, a.short_bal, a.funding),
+            (b.trade_count, b.long_bal, b.short_bal, b.funding)
+        ));
+    }
+    out.join("; ")
+}
+
+/// Replay the observations of one transaction against the model. Returns the index of the script
+/// step at which the observations ended (== number of observations consumed).
+fn check_tx(model: &mut Model, cx: &Ctx, obs: &[Obs], m: &mut Monitor) {
+    let mut open: Option<OpenModel> = None;
+    for (idx, (step, o)) in cx.script.iter().zip(obs.iter()).enumerate() {
+        m.count(&format!("step_{}", step.name()));
+        if let Some(Err(_)) = &o.ret {
+            m.count(&format!("step_err_{}", step.name()));
+        }
+        match step {
+            Step::Fail => return,
+            Step::Begin { liq, .. } => {
+                model.rev += 1;
+                m.count("ops_begin");
+                if model.dirty_drops_since_commit > 0 {
+                    m.count("begin_after_abandoned_writes");
+                }
+                open = Some(OpenModel {
+                    overlay: model.storage.clone(),
+                    touched_pools: [false; 16],
+                    touched_clocks: false,
+                    touched_other: false,
+                    wrote: 0,
+                    liq: *liq,
+                    to_mint: 0,
+                    to_burn: 0,
+                    supply_at_begin: model.supply,
+                    pre: o.pre.clone().unwrap_or_default(),
+                });
+                if o.rev != model.rev || o.rev_at_off != model.rev {
+                    m.inconclusive(&format!(
+                        "harness: revision bookkeeping / layout self-check failed (rev {} at-offset {} model {})",
+                        o.rev, o.rev_at_off, model.rev
+                    ));
+                }
+            }
+            _ => {}
+        }
+        let Some(om) = open.as_mut() else { continue };
+        // Expected effect of the step on the overlay and its expected result.
+        let mut expect: Option<std::result::Result<u128, ()>> = None;
+        match step {
+            Step::PoolDelta { kind, long_side, delta, .. } => {
+                let p = &mut om.overlay.pools[*kind as usize];
+                om.touched_pools[*kind as usize] = true;
+                let target = if *long_side || p.pure != 0 { &mut p.long } else { &mut p.short };
+                match target.checked_add_signed(*delta) {
+                    Some(v) => {
+                        if v != *target {
+                            om.wrote += 1;
+                        }
+                        *target = v;
+                        expect = Some(Ok(0));
+                    }
+                    None => expect = Some(Err(())),
+                }
+            }
+            Step::ClockPass { which } => {
+                om.touched_clocks = true;
+                let last = &mut om.overlay.clocks[*which as usize];
+                let d = cx.now.saturating_sub(*last);
+                if d > 0 {
+                    *last = cx.now;
+                    om.wrote += 1;
+                    expect = Some(Ok(d as u128));
+                } else {
+                    expect = Some(Ok(0));
+                }
+            }
+            Step::ClockPeek { which } => {
+                let d = cx.now.saturating_sub(om.overlay.clocks[*which as usize]);
+                expect = Some(Ok(if d > 0 { d as u128 } else { 0 }));
+            }
+            Step::Transfer { inn, long_token, amount } => {
+                om.touched_other = true;
+                let bal = if *long_token || model.pure_market { &mut om.overlay.long_bal } else { &mut om.overlay.short_bal };
+                let r = if *inn { bal.checked_add(*amount) } else { bal.checked_sub(*amount) };
+                match r {
+                    Some(v) => {
+                        if v != *bal {
+                            om.wrote += 1;
+                        }
+                        *bal = v;
+                        expect = Some(Ok(0));
+                    }
+                    None => expect = Some(Err(())),
+                }
+            }
+            Step::Balance { long_token } => {
+                let b = if *long_token || model.pure_market { om.overlay.long_bal } else { om.overlay.short_bal };
+                expect = Some(Ok(b as u128));
+            }
+            Step::NextTradeId => {
+                // Documented: derived from the *stored* trade count (idempotent within an operation).
+                om.touched_other = true;
+                match model.storage.trade_count.checked_add(1) {
+                    Some(id) => {
+                        if om.overlay.trade_count != id {
+                            om.wrote += 1;
+                        }
+                        om.overlay.trade_count = id;
+                        expect = Some(Ok(id as u128));
+                    }
+                    None => expect = Some(Err(())),
+                }
+            }
+            Step::SetFunding { value } => {
+                om.touched_other = true;
+                if om.overlay.funding != *value {
+                    om.wrote += 1;
+                }
+                om.overlay.funding = *value;
+                expect = Some(Ok(0));
+            }
+            Step::FeesState => {
+                // Composite real-model write: the overlay adopts what the operation observed.
+                if let Some(v) = &o.view {
+                    let seen = parse_view(v);
+                    if seen != om.overlay {
+                        om.wrote += 1;
+                    }
+                    om.overlay = seen;
+                }
+                om.touched_pools = [true; 16];
+                om.touched_clocks = true;
+                om.touched_other = true;
+            }
+            Step::Mint { amount } if om.liq => {
+                let r = u64::try_from(*amount)
+                    .ok()
+                    .and_then(|n| om.to_mint.checked_add(n))
+                    .filter(|t| om.supply_at_begin.checked_add(*t).is_some());
+                match r {
+                    Some(t) => {
+                        om.to_mint = t;
+                        expect = Some(Ok(0));
+                    }
+                    None => expect = Some(Err(())),
+                }
+            }
+            Step::Burn { amount } if om.liq => {
+                let r = u64::try_from(*amount)
+                    .ok()
+                    .and_then(|n| om.to_burn.checked_add(n))
+                    .filter(|t| om.supply_at_begin.checked_sub(*t).is_some());
+                match r {
+                    Some(t) => {
+                        om.to_burn = t;
+                        expect = Some(Ok(0));
+                    }
+                    None => expect = Some(Err(())),
+                }
+            }
+            _ => {}
+        }
+        match step {
+            Step::Commit | Step::Drop => {
+                let om = open.take().unwrap();
+                let Some(post) = &o.post else { continue };
+                m.eval();
+                let committed = matches!(step, Step::Commit);
+                if o.rev_at_off != model.rev {
+                    m.inconclusive("harness: buffer revision not found at the derived offset after the operation");
+                }
+                let mut sig: Vec<u8> = vec![committed as u8, om.liq as u8];
+                for (i, t) in om.touched_pools.iter().enumerate() {
+                    if *t {
+                        sig.push(i as u8);
+                    }
+                }
+                sig.push(100 + om.touched_clocks as u8);
+                sig.push(110 + om.touched_other as u8);
+                sig.push(120 + model.dirty_drops_since_commit.min(3) as u8);
+                if committed {
+                    m.count("ops_commit");
+                    if om.wrote == 0 && om.to_mint == 0 && om.to_burn == 0 {
+                        m.count("commit_no_writes");
+                    } else {
+                        m.count("commit_with_writes");
+                    }
+                    // bytes outside state and buffer never change
+                    if post[..STATE_OFF] != om.pre[..STATE_OFF] || post[BUF_OFF + 16 + STATE_SZ..] != om.pre[BUF_OFF + 16 + STATE_SZ..] {
+                        m.violation(
+                            "C21:commit:bytes_outside_state_changed",
+                            witness(cx, idx, json!("account bytes outside `state`/`buffer` differ after commit")),
+                        );
+                    }
+                    let stored = parse_storage(post);
+                    if stored != om.overlay {
+                        m.violation(
+                            "C21:commit:storage_differs_from_observed_writes",
+                            witness(cx, idx, json!(diff_state(&stored, &om.overlay))),
+                        );
+                    }
+                    // untouched kinds: byte-identical slots
+                    let s = STATE_OFF;
+                    let mut untouched_changed = vec![];
+                    for i in 0..32 {
+                        let touched = i < 16 && om.touched_pools[i];
+                        let r = s + i * POOL_SLOT..s + (i + 1) * POOL_SLOT;
+                        if !touched && post[r.clone()] != om.pre[r] {
+                            untouched_changed.push(format!("pool slot {i}"));
+                        }
+                    }
+                    let rc = s + POOLS_SZ..s + POOLS_SZ + CLOCKS_SZ;
+                    if !om.touched_clocks && post[rc.clone()] != om.pre[rc] {
+                        untouched_changed.push("clocks".into());
+                    }
+                    let ro = s + POOLS_SZ + CLOCKS_SZ..s + POOLS_SZ + CLOCKS_SZ + OTHER_SZ;
+                    if !om.touched_other && post[ro.clone()] != om.pre[ro] {
+                        untouched_changed.push("other".into());
+                    }
+                    let rr = s + POOLS_SZ + CLOCKS_SZ + OTHER_SZ..s + STATE_SZ;
+                    if post[rr.clone()] != om.pre[rr] {
+                        untouched_changed.push("state.reserved".into());
+                    }
+                    if !untouched_changed.is_empty() {
+                        m.violation(
+                            "C21:commit:untouched_state_changed",
+                            witness(cx, idx, json!(untouched_changed)),
+                        );
+                    }
+                    model.storage = om.overlay.clone();
+                    if om.liq {
+                        model.supply = model.supply + om.to_mint - om.to_burn;
+                        model.receiver += om.to_mint;
+                        model.vault = model.vault.saturating_sub(om.to_burn);
+                        if om.to_mint > 0 {
+                            m.count("liq_commit_minted");
+                        }
+                        if om.to_burn > 0 {
+                            m.count("liq_commit_burned");
+                        }
+                    }
+                    if om.wrote > 0 {
+                        m.nontrivial(&sig);
+                    }
+                    model.dirty_drops_since_commit = 0;
+                    model.consecutive_drops = 0;
+                } else {
+                    m.count("ops_drop");
+                    if !o.storage_same {
+                        m.violation(
+                            "C21:drop:storage_changed",
+                            witness(cx, idx, json!("account bytes outside the buffer differ after an abandoned operation")),
+                        );
+                    }
+                    let stored = parse_storage(post);
+                    if stored != model.storage {
+                        m.violation(
+                            "C21:drop:storage_changed",
+                            witness(cx, idx, json!(diff_state(&stored, &model.storage))),
+                        );
+                    }
+                    if om.wrote > 0 {
+                        m.count("drop_with_writes");
+                        model.dirty_drops_since_commit += 1;
+                        m.nontrivial(&sig);
+                    } else {
+                        m.count("drop_without_writes");
+                    }
+                    if om.liq && (om.to_mint > 0 || om.to_burn > 0) {
+                        m.count("liq_drop_with_deferred");
+                    }
+                    model.consecutive_drops += 1;
+                    m.max("max_consecutive_drops", model.consecutive_drops);
+                }
+                continue;
+            }
+            _ => {}
+        }
+        // Per-step checks on the open operation.
+        let om = open.as_ref().unwrap();
+        m.eval();
+        if !o.trait_ok {
+            m.violation(
+                "C21:step:trait_accessor_reads_other_pool",
+                witness(cx, idx, json!("a model-trait pool accessor returned a pool different from the buffered view of its kind")),
+            );
+        }
+        if let (Some(e), Some(r)) = (&expect, &o.ret) {
+            let agree = match (e, r) {
+                (Ok(a), Ok(b)) => a == b,
+                (Err(()), Err(_)) => true,
+                _ => false,
+            };
+            if !agree {
+                m.violation(
+                    "C21:step:read_result_differs_from_model",
+                    witness(cx, idx, json!({"expected": format!("{e:?}"), "observed": format!("{r:?}")})),
+                );
+            }
+        }
+        if let Some(v) = &o.view {
+            let seen = parse_view(v);
+            if seen != om.overlay {
+                let sig = if matches!(step, Step::Begin { .. }) {
+                    "C21:begin:view_differs_from_storage"
+                } else {
+                    "C21:step:view_differs_from_model"
+                };
+                m.violation(sig, witness(cx, idx, json!(diff_state(&seen, &om.overlay))));
+            }
+        }
+        if !o.storage_same {
+            m.violation(
+                "C21:step:storage_changed_before_commit",
+                witness(cx, idx, json!("account bytes outside the buffer changed while the operation was open")),
+            );
+        }
+        if om.liq {
+            if o.deferred != Some((om.to_mint, om.to_burn)) {
+                m.violation(
+                    "C21:liquidity:deferred_counters_differ",
+                    witness(cx, idx, json!({"observed": format!("{:?}", o.deferred), "model": [om.to_mint, om.to_burn]})),
+                );
+            }
+            let sup = (om.supply_at_begin as u128).saturating_add(om.to_mint as u128).saturating_sub(om.to_burn as u128);
+            if o.supply != Some(sup) {
+                m.violation(
+                    "C21:liquidity:total_supply_differs",
+                    witness(cx, idx, json!({"observed": format!("{:?}", o.supply), "model": sup.to_string()})),
+                );
+            }
+        }
+    }
+}
+
+// ------------------------------------------------------------------------------------------------
+// Workload
+
+fn gen_delta(rng: &mut Rng, cur: u128) -> i128 {
+    match rng.below(10) {
+        0..=3 => rng.log_u128(10u128.pow(30)) as i128,
+        4..=5 => -(rng.log_u128(cur.min(i128::MAX as u128)) as i128),
+        6 => -(rng.log_u128(10u128.pow(12)) as i128),
+        7 => *rng.pick(&[0i128, 1, -1, i128::MAX, i128::MIN, i128::MAX - 1]),
+        8 => {
+            // exactly drain / just overdraw
+            let c = cur.min(i128::MAX as u128) as i128;
+            if rng.bool() {
+                -c
+            } else {
+                (-c).saturating_sub(1)
+            }
+        }
+        _ => rng.biased_i128(crate::world::UNIT),
+    }
+}
+
+fn gen_tx(rng: &mut Rng, model: &Model) -> Vec<Step> {
+    let mut s = vec![];
+    let n_ops = 1 + rng.weighted(&[50, 28, 14, 8]);
+    // mood: 0 mixed, 1 drop-heavy (repeated abandonment), 2 commit-heavy
+    let mood = rng.weighted(&[60, 25, 15]);
+    for _ in 0..n_ops {
+        let liq = rng.chance(1, 4);
+        s.push(Step::Begin { liq, mint_on: rng.chance(19, 20), burn_on: rng.chance(19, 20) });
+        let n = match rng.weighted(&[15, 45, 40]) {
+            0 => 0,
+            1 => rng.range(1, 3),
+            _ => rng.range(4, 12),
+        };
+        for _ in 0..n {
+            let w: [u32; 11] = [40, 12, 3, 15, 3, 6, 6, 3, if liq { 8 } else { 0 }, if liq { 8 } else { 0 }, 0];
+            let st = match rng.weighted(&w) {
+                0 => {
+                    let kind = rng.below(16) as u8;
+                    let long_side = rng.bool();
+                    let p = &model.storage.pools[kind as usize];
+                    let cur = if long_side || p.pure != 0 { p.long } else { p.short };
+                    Step::PoolDelta { kind, long_side, delta: gen_delta(rng, cur), via_trait: rng.bool() }
+                }
+                1 => Step::ClockPass { which: rng.below(3) as u8 },
+                2 => Step::ClockPeek { which: rng.below(2) as u8 },
+                3 => {
+                    let inn = rng.chance(3, 5);
+                    let amount = match rng.below(8) {
+                        0 => *rng.pick(&[0u64, 1, u64::MAX, u64::MAX - 1]),
+                        1 => model.storage.long_bal,
+                        2 => model.storage.short_bal.saturating_add(1),
+                        _ => rng.log_u64(1_000_000_000_000_000),
+                    };
+                    Step::Transfer { inn, long_token: rng.bool(), amount }
+                }
+                4 => Step::Balance { long_token: rng.bool() },
+                5 => Step::NextTradeId,
+                6 => Step::SetFunding { value: rng.biased_i128(crate::world::UNIT) },
+                7 => Step::FeesState,
+                8 => Step::Mint {
+                    amount: if rng.chance(1, 12) { rng.biased_u128(u128::MAX, 1 << 64) } else { rng.log_u128(1_000_000_000_000) },
+                },
+                _ => Step::Burn {
+                    amount: if rng.chance(1, 12) {
+                        rng.biased_u128(u128::MAX, 1 << 64)
+                    } else {
+                        rng.log_u128((model.vault as u128 / 4).max(1))
+                    },
+                },
+            };
+            s.push(st);
+        }
+        let commit = match mood {
+            1 => rng.chance(1, 5),
+            2 => rng.chance(4, 5),
+            _ => rng.bool(),
+        };
+        s.push(if commit { Step::Commit } else { Step::Drop });
+    }
+    if rng.chance(1, 12) {
+        s.push(Step::Fail);
+    }
+    s
+}
+
+fn script_ix(w: &World, mi: &MarketInfo, receiver: Pubkey) -> Instruction {
+    Instruction {
+        program_id: STORE_PID,
+        accounts: vec![
+            AccountMeta::new(mi.market, false),
+            AccountMeta::new_readonly(w.event_authority(), false),
+            AccountMeta::new_readonly(STORE_PID, false),
+            AccountMeta::new_readonly(w.store, false),
+            AccountMeta::new(mi.market_token, false),
+            AccountMeta::new_readonly(spl_token::ID, false),
+            AccountMeta::new(receiver, false),
+            AccountMeta::new(w.vault(&mi.market_token), false),
+        ],
+        data: TAG.to_vec(),
+    }
+}
+
+fn set_vault_amount(w: &mut World, market_token: &Pubkey, amount: u64) {
+    use anchor_lang::solana_program::program_pack::Pack;
+    let vault = w.vault(market_token);
+    let owner = token::token_account(&w.svm, &vault).map(|a| a.owner).unwrap_or(w.store);
+    let old = token::token_amount(&w.svm, &vault).unwrap_or(0);
+    token::set_token_account(&mut w.svm, vault, *market_token, owner, amount);
+    if let Some(acc) = w.svm.accounts.get_mut(market_token) {
+        if let Ok(mut mint) = spl_token::state::Mint::unpack(&acc.data) {
+            mint.supply = mint.supply - old + amount;
+            mint.pack_into_slice(&mut acc.data);
+        }
+    }
+}
+
+pub fn run(args: &Args) -> Option<i32> {
+    let mut mon = Monitor::new(
+        args,
+        "random histories of transactions, each a script of 1-4 revertible operations `begin (RevertibleMarket::verif_new / \
+         RevertibleLiquidityMarket::verif_new) · steps · commit|drop` on a real Market account (one two-token and one \
+         single-token market per shard), executed by the real buffer code inside hostsvm (a dispatcher under the store \
+         program id runs the script; commit's event self-CPI and the mint/burn CPIs go to the real programs). Steps: pool \
+         write over all 16 PoolKinds via verif_pool_mut or the model-trait accessor + Pool::apply_delta, clock write \
+         (just_passed_* with the hostsvm clock warped / set back), other-state writes (Bank record_transferred_in/out, \
+         next_trade_id, funding factor), update_fees_state (composite), liquidity mint/burn, reads. Some transactions fail \
+         at the end (runtime rollback). After every step the whole revertible view is compared with an overlay model; \
+         account bytes outside the buffer must not change before commit / after drop; after commit storage must equal \
+         the overlay and untouched kinds must be byte-identical. non-trivial = an operation with at least one successful \
+         value-changing write that was committed or abandoned and then checked; distinct = hash of (commit|drop, \
+         liquidity?, set of touched pool kinds / clocks / other, #abandoned dirty operations since the last commit ≤3)",
+    );
+    mon.assume("market accounts are created by the real initialize_market; market-token vault balance / supply are seeded by state injection so that burns have something to burn");
+    mon.assume("`next_trade_id` is documented to derive from the stored trade count (idempotent inside one operation); the model follows that");
+    mon.assume("failed / panicking transactions are rolled back by the runtime (hostsvm atomicity), the model is rolled back with them");
+    let shards = args.scale(96, 768);
+    let txs = args.scale(4_000, 16_000);
+    let quiet = hostsvm::QuietStdout::new();
+    run_shards(&mut mon, args.threads, shards, |shard, m| {
+        let mut rng = Rng::derive(args.seed, shard, 21);
+        let mut w = World::bootstrap_store();
+        w.bootstrap_oracle();
+        let btc = w.add_token("BTC", 8, 2, true);
+        let sol = w.add_token("SOL", 9, 4, false);
+        let usdc = w.add_token("USDC", 6, 6, false);
+        let m0 = w.add_market(btc, sol, usdc);
+        let m1 = w.add_market(sol, sol, sol);
+        w.svm.add_program(STORE_PID, entry);
+        EVENT_BUMP.with(|b| b.set(pda::find_event_authority_address(&STORE_PID).1));
+        let alice = w.add_user("alice");
+        let keeper = w.keeper;
+        let mut models = vec![];
+        let mut receivers = vec![];
+        for mi in [m0, m1] {
+            let info = w.markets[mi].clone();
+            let receiver = token::fund_ata(&mut w.svm, &alice, &info.market_token, rng.log_u64(1_000_000_000));
+            set_vault_amount(&mut w, &info.market_token, 1_000_000_000_000 + rng.log_u64(1_000_000_000_000));
+            let Some(market) = load::<Market>(&w.svm, &info.market) else {
+                m.inconclusive("harness: market account missing after bootstrap");
+                return;
+            };
+            let bytes = w.svm.get(&info.market).unwrap().data[8..8 + MSZ].to_vec();
+            let storage = storage_via_accessors(&market);
+            if storage != parse_storage(&bytes) {
+                m.inconclusive("harness: derived Market layout does not match the accessors");
+                return;
+            }
+            models.push(Model {
+                storage,
+                rev: u64::from_le_bytes(bytes[BUF_OFF..BUF_OFF + 8].try_into().unwrap()),
+                pure_market: market.is_pure(),
+                supply: token::mint_supply(&w.svm, &info.market_token).unwrap_or(0),
+                receiver: token::token_amount(&w.svm, &receiver).unwrap_or(0),
+                vault: token::token_amount(&w.svm, &w.vault(&info.market_token)).unwrap_or(0),
+                dirty_drops_since_commit: 0,
+                consecutive_drops: 0,
+            });
+            receivers.push(receiver);
+        }
+        for tx in 0..txs {
+            // clock
+            match rng.below(20) {
+                0..=10 => w.svm.warp(rng.range(1, 120) as i64),
+                11 => w.svm.warp(rng.range(1_000, 1_000_000) as i64),
+                12 => {
+                    let back = rng.range(1, 5_000) as i64;
+                    let t = w.svm.clock.unix_timestamp - back;
+                    w.svm.set_time(t);
+                    m.count("clock_set_back");
+                }
+                _ => {}
+            }
+            let which = rng.below(2) as usize;
+            let info = w.markets[[m0, m1][which]].clone();
+            let script = gen_tx(&mut rng, &models[which]);
+            SCRIPT.with(|s| *s.borrow_mut() = script.clone());
+            OBS.with(|o| o.borrow_mut().clear());
+            let ix = script_ix(&w, &info, receivers[which]);
+            // `guard` only silences the panic message of a (caught, rolled back) panicking commit.
+            let res = match vcommon::monitor::guard(|| w.send(&[ix], &[keeper])) {
+                Ok(r) => r,
+                Err(p) => {
+                    m.inconclusive(&format!("harness: uncaught panic while sending: {p}"));
+                    return;
+                }
+            };
+            let obs = OBS.with(|o| std::mem::take(&mut *o.borrow_mut()));
+            let cx = Ctx { shard, market: which, tx, now: w.svm.clock.unix_timestamp, script: &script };
+            let mut work = models[which].clone();
+            check_tx(&mut work, &cx, &obs, m);
+            let wants_fail = matches!(script.last(), Some(Step::Fail));
+            match &res {
+                Ok(_) => {
+                    m.count("tx_ok");
+                    models[which] = work;
+                    if wants_fail {
+                        m.inconclusive("harness: a transaction that should fail succeeded");
+                    }
+                }
+                Err((e, _)) => {
+                    let has_liq = script.iter().any(|s| matches!(s, Step::Mint { .. } | Step::Burn { .. }));
+                    if wants_fail && obs.len() == script.len() {
+                        m.count("tx_failed_rolled_back");
+                    } else if has_liq {
+                        // A liquidity commit may legitimately abort (documented "should panic if the commitment
+                        // cannot be done"): mint without receiver, burn without / beyond the vault.
+                        m.count("tx_liquidity_commit_aborted_rolled_back");
+                    } else if e.is_panic() && script.iter().any(|s| matches!(s, Step::FeesState)) {
+                        m.count("tx_panic_with_update_fees_state");
+                    } else if e.is_panic() {
+                        m.count("tx_panic_unexplained");
+                        m.set_extra("first_unexplained_tx_panic", json!({"error": format!("{e:?}"), "script": format!("{script:?}")}));
+                    } else {
+                        m.count("tx_error_unexplained");
+                        m.set_extra("first_unexplained_tx_error", json!({"error": format!("{e:?}"), "observations": obs.len(), "script": format!("{script:?}")}));
+                    }
+                    // model keeps the pre-transaction state
+                }
+            }
+            // Stored state after the transaction (committed or rolled back) through the repo's accessors.
+            let Some(market) = load::<Market>(&w.svm, &info.market) else {
+                m.inconclusive("harness: market account vanished");
+                return;
+            };
+            m.eval();
+            let stored = storage_via_accessors(&market);
+            let model = &models[which];
+            if stored != model.storage {
+                m.violation(
+                    "C21:tx:stored_state_differs_from_model",
+                    witness(&cx, script.len(), json!(diff_state(&stored, &model.storage))),
+                );
+                // resynchronise so that one defect is not reported at every later step
+                models[which].storage = stored;
+            }
+            let bytes = &w.svm.get(&info.market).unwrap().data[8..8 + MSZ];
+            if parse_storage(bytes) != models[which].storage {
+                m.inconclusive("harness: derived Market layout does not match the accessors");
+            }
+            let rev_now = u64::from_le_bytes(bytes[BUF_OFF..BUF_OFF + 8].try_into().unwrap());
+            if rev_now != models[which].rev {
+                m.inconclusive("harness: revision bookkeeping diverged");
+                models[which].rev = rev_now;
+            }
+            let supply = token::mint_supply(&w.svm, &info.market_token).unwrap_or(0);
+            let recv = token::token_amount(&w.svm, &receivers[which]).unwrap_or(0);
+            let vault = token::token_amount(&w.svm, &w.vault(&info.market_token)).unwrap_or(0);
+            let model = &models[which];
+            if (supply, recv, vault) != (model.supply, model.receiver, model.vault) {
+                m.violation(
+                    "C21:liquidity:minted_or_burned_differs_from_committed_requests",
+                    witness(
+                        &cx,
+                        script.len(),
+                        json!({"observed": [supply, recv, vault], "model": [model.supply, model.receiver, model.vault]}),
+                    ),
+                );
+                models[which].supply = supply;
+                models[which].receiver = recv;
+                models[which].vault = vault;
+            }
+            if m.wants_sample() && tx % 211 == 7 {
+                m.sample(json!({"shard": shard, "tx": tx, "market": which, "script": script.iter().map(|s| format!("{s:?}")).collect::<Vec<_>>(), "result": format!("{:?}", res.as_ref().map(|_| ()).map_err(|e| &e.0))}));
+            }
+        }
+        // which pool kinds were written
+        let _ = sol;
+        let _ = usdc;
+    });
+    drop(quiet);
+    if mon.counter("tx_error_unexplained") + mon.counter("tx_panic_unexplained") > 0 {
+        mon.inconclusive("some scripted transactions failed for a reason the harness cannot explain (see first_unexplained_* in the evidence)");
+    }
+    mon.require("ops_commit", 2_000);
+    mon.require("ops_drop", 2_000);
+    mon.require("drop_with_writes", 1_000);
+    mon.require("commit_with_writes", 1_000);
+    mon.require("commit_no_writes", 100);
+    mon.require("begin_after_abandoned_writes", 1_000);
+    mon.require("step_pool_write", 2_000);
+    mon.require("step_pool_write_via_trait", 2_000);
+    mon.require("step_clock_just_passed", 500);
+    mon.require("step_transferred_in", 300);
+    mon.require("step_next_trade_id", 300);
+    mon.require("liq_commit_minted", 50);
+    mon.require("liq_commit_burned", 50);
+    mon.require("liq_drop_with_deferred", 50);
+    mon.require("tx_failed_rolled_back", 50);
+    mon.require("tx_liquidity_commit_aborted_rolled_back", 20);
+    Some(mon.finish())
 }
